@@ -76,12 +76,35 @@ func captureStart() {
 	capFile.Truncate(0)
 	capFile.Seek(0, io.SeekStart)
 	os.Stdout = capFile
+	if capErrFile == nil {
+		f, err := os.CreateTemp("/dev/shm", "verif-cape-*")
+		if err != nil {
+			f, err = os.CreateTemp("", "verif-cape-*")
+			if err != nil {
+				panic(err)
+			}
+		}
+		os.Remove(f.Name())
+		capErrFile = f
+	}
+	capErrFile.Truncate(0)
+	capErrFile.Seek(0, io.SeekStart)
+	os.Stderr = capErrFile
 }
+
+// what the library wrote to standard error since the last captureStart (it must not write there at all)
+var realStderr = os.Stderr
+var capErrFile *os.File
+var capturedStderr string
 
 func captureStop() string {
 	os.Stdout = realStdout
+	os.Stderr = realStderr
 	capFile.Seek(0, io.SeekStart)
 	b, _ := io.ReadAll(capFile)
+	capErrFile.Seek(0, io.SeekStart)
+	eb, _ := io.ReadAll(capErrFile)
+	capturedStderr += string(eb)
 	return string(b)
 }
 
@@ -497,6 +520,10 @@ func RunImpl(c *Case) string {
 			fmt.Fprintf(&sb, " r%d=V:%s", i, showValue(out))
 		}
 		fmt.Fprintf(&sb, " o%d=%s", i, hexs(stdout))
+		if has(c.Show, "stderr") {
+			fmt.Fprintf(&sb, " e%d=%s", i, hexs(capturedStderr))
+		}
+		capturedStderr = ""
 		fmt.Fprintf(&sb, " g%d=%s", i, showGlobals(e.VerifEnvironment().VerifGlobals()))
 		fmt.Fprintf(&sb, " s%d=%d", i, e.VerifEnvironment().ScopeDepth())
 		fmt.Fprintf(&sb, " p%d=%d", i, ctx.calls)
